@@ -105,6 +105,13 @@ def sess_damaged(seed, explore=False):
                     classes.add('shared_prefix_plus_suffix')
                 e['cells'][ci] = gen.lit('text', bad)
             damaged.append((li, ci, bad))
+    try:
+        import kernpy as kp
+        kp.loads(session.render(clean))
+    except Exception:  # noqa  the UNDAMAGED text does not import: not a statement about malformed cells (C02's business)
+        s = dp.finish_session(lines, [], session.render(lines), seed, {'undamaged-import-raises'}, classes)
+        s['damaged'] = []
+        return s
     evs, doc, text = session.record_import(lines)
     if doc is not None:
         evs.append(session.record_call(doc, {'op': 'dumps', 'args': session.dumps_args(), 'exact': True, 'malformed': True}))
